@@ -58,6 +58,7 @@ type Exec struct {
 	expandPreds bool
 	hookNew  Value
 	havocStore bool
+	wfDone   map[string]bool
 	transferred map[string]string
 	hookPtr  *Ptr
 	assumedClauses map[string]bool
@@ -147,12 +148,36 @@ func (x *Exec) leaf(key string, nidx int, sort string) *LeafInfo {
 
 func (x *Exec) heapGet(st *State, l *LeafInfo) string {
 	if t, ok := st.Heap[l.Key]; ok {
+		x.leafWf(l, t, st)
 		return t
 	}
 	name := fmt.Sprintf("L.%s.e%d", sanitize(l.Key), st.Epoch)
 	x.em.declare(name, l.ArraySort())
 	st.Heap[l.Key] = name
+	x.leafWf(l, name, st)
 	return name
+}
+
+// leafWf states heap well-formedness for an unconstrained version of a
+// reference-typed leaf: every reference stored in it denotes nil or an
+// allocated object. (Versions built by stores inherit it from the stored
+// values.) It is needed where a reference is read under a quantifier.
+func (x *Exec) leafWf(l *LeafInfo, name string, st *State) {
+	if l.Ghost || l.Sort != "Int" || strings.HasSuffix(l.Key, "#tag") || x.wfDone[name] || st.Epoch < 0 {
+		return
+	}
+	if !(strings.HasPrefix(name, "L.") || strings.HasPrefix(name, "Hc.") || strings.HasPrefix(name, "Ha.") || strings.HasPrefix(name, "Hh.") || strings.HasPrefix(name, "Hn.")) {
+		return
+	}
+	x.wfDone[name] = true
+	r := x.em.fresh("wfr")
+	switch l.NIdx {
+	case 0:
+		x.em.items = append(x.em.items, item{line: fmt.Sprintf("(assert (forall ((%s Int)) (! (and (<= 0 (select %s %s)) (<= (select %s %s) %s)) :pattern ((select %s %s)))))", r, name, r, name, r, st.Frontier, name, r)})
+	case 1:
+		i := x.em.fresh("wfi")
+		x.em.items = append(x.em.items, item{line: fmt.Sprintf("(assert (forall ((%s Int) (%s (_ BitVec 64))) (! (and (<= 0 (select (select %s %s) %s)) (<= (select (select %s %s) %s) %s)) :pattern ((select (select %s %s) %s)))))", r, i, name, r, i, name, r, i, st.Frontier, name, r, i)})
+	}
 }
 
 func (x *Exec) recordWrite(key, base string, whole bool) {
@@ -1119,6 +1144,80 @@ func (x *Exec) nameValue(v Value, hint string) Value {
 }
 
 var freshNameRe = regexp.MustCompile(`!([0-9]+)`)
+var nameTokRe = regexp.MustCompile(`[A-Za-z_$][A-Za-z0-9_.$#@\[\]-]*(![0-9]+)?`)
+
+// loopInvariant decides whether a term computed inside a loop body denotes
+// the same value in every iteration: after expanding the definitions made
+// inside the body it must mention only names that existed at loop entry, and
+// every heap array it reads must be the loop-entry version of a leaf that the
+// body does not write.
+func (x *Exec) loopInvariant(term string, mark int, stEntry *State, disc map[string]*WriteSet) (string, bool) {
+	expanded := term
+	for round := 0; round < 12; round++ {
+		changed := false
+		bad := false
+		expanded = nameTokRe.ReplaceAllStringFunc(expanded, func(tok string) string {
+			m := freshNameRe.FindStringSubmatch(tok)
+			if m == nil {
+				return tok
+			}
+			k, _ := strconv.Atoi(m[1])
+			if k <= mark {
+				return tok
+			}
+			if d, ok := x.em.defs[tok]; ok {
+				changed = true
+				return d
+			}
+			bad = true
+			return tok
+		})
+		if bad {
+			return "", false
+		}
+		if !changed {
+			break
+		}
+		if len(expanded) > 4000 {
+			return "", false
+		}
+	}
+	if definedAfter(expanded, mark) {
+		return "", false
+	}
+	// heap versions read by the term
+	rev := map[string]string{}
+	for k, n := range stEntry.Heap {
+		rev[n] = k
+	}
+	for _, tok := range nameTokRe.FindAllString(expanded, -1) {
+		if !(strings.HasPrefix(tok, "L.") || strings.HasPrefix(tok, "H")) {
+			continue
+		}
+		key, cur := rev[tok]
+		if !cur {
+			// an initial version that no state has materialised yet, or an older
+			// version: accept initial versions of leaves the body does not write
+			if strings.HasPrefix(tok, "L.") {
+				found := false
+				for k := range disc {
+					if strings.HasPrefix(tok, "L."+sanitize(k)+".e") {
+						found = true
+					}
+				}
+				if found {
+					return "", false
+				}
+				continue
+			}
+			return "", false
+		}
+		if _, written := disc[key]; written {
+			return "", false
+		}
+	}
+	return expanded, true
+}
 
 // definedAfter reports whether term mentions a name created after counter n.
 func definedAfter(term string, n int) bool {
@@ -1175,11 +1274,29 @@ func (x *Exec) loopHeader(fr *Frame, l *loopInfo, stEntry *State, ins []edgeIn, 
 			fr.vals[k] = v
 		}
 		for phi, v := range entryVals {
+			// loop-carried values are arbitrary in a later iteration: fresh names
+			// (created after mark) so that nothing derived from them is taken
+			// for loop-invariant
+			fv := x.freshValue(phi.Type(), "disc."+phi.Comment, stEntry)
 			if sv, ok := v.(SliceV); ok {
-				sv.New = phiNew[phi]
-				v = sv
+				nv := fv.(SliceV)
+				nv.New = phiNew[phi]
+				nv.Region = x.regionOf(sv).Region
+				fv = nv
 			}
-			fr.vals[phi] = v
+			if pv, ok := v.(Ptr); ok {
+				if np, ok := fv.(Ptr); ok {
+					np.Root = pv.Root
+					fv = np
+				}
+			}
+			if _, ok := v.(Closure); ok {
+				fv = v
+			}
+			if _, ok := v.(FuncV); ok {
+				fv = v
+			}
+			fr.vals[phi] = fv
 		}
 		fr.blockOut = map[int]*State{}
 		fr.edge = map[[2]int]string{}
@@ -1242,7 +1359,14 @@ func (x *Exec) loopHeader(fr *Frame, l *loopInfo, stEntry *State, ins []edgeIn, 
 		innerNew := false // objects allocated by this function were written at loop-varying addresses
 		bound := stEntry.Frontier
 		var outside []string
-		for _, bt := range ws.Bases {
+		for _, bt0 := range ws.Bases {
+			bt := bt0
+			if definedAfter(bt, mark) {
+				if ex, ok := x.loopInvariant(bt, mark, stEntry, disc); ok {
+					outside = append(outside, ex)
+					continue
+				}
+			}
 			if definedAfter(bt, mark) {
 				if ws.New[bt] {
 					innerNew = true
